@@ -58,6 +58,10 @@ CHECKS = {
                 technique="bounded-exhaustive enumeration of definition programs (field sequences) compiled by the real compiler; layouts cross-checked between a reference computation, gcc (offsetof/sizeof/_Alignof on the generated header), ctypes (generated Python classes) and the parser; auto_pad on/off differential",
                 text="Every field sequence up to the length bound over scalars of width 1/2/4/8, arrays, nested structs of alignment 1/2/4/8 (tail-padded or not), arrays of those and field-list reuse, as struct and message; natural alignment, no hidden padding, minimal char-only padding that preserves the user's fields, auto_pad-off accepts iff no padding is needed, and the 65535-byte limit at its boundary.",
                 note="Trusted: gcc x86-64 layout, ctypes; batches of 300 definitions per compiled program."),
+    "C12": dict(engine="DEFX", level="exploration", ref="DESIGN.md 4/C12",
+                technique="bounded-exhaustive enumeration of definition programs over import-graph shapes x item placements, parsed by the real parser and compared with set semantics",
+                text="Every import-graph shape on <=4 files (chains, fans, diamond, repeated imports by different relative paths, sub-directory, same file name in two directories, cycle) x every ordered pair of files x every pair of kinds sharing the name space, every pair of message-id forms (message, signal, reserved int / 'a - b' / 'a to b'), module/host id clashes, range violations, clashes against the core definitions; and every conflict-free placement of up to 4 definitions: exact error class, exact registry, each file read once, CLI exit code.",
+                note="Trusted: ruamel.yaml duplicate-key detection. Every generated file defines at least one item (an empty YAML document is not treated as a definition file)."),
 }
 
 ALL = [f"C{i:02d}" for i in range(1, 20)]
